@@ -29,6 +29,14 @@ class Undecided(Exception):
     pass
 
 
+def is_artefact(e):
+    """an exception that stems from running numpy ufuncs on exact symbolic (object dtype) arrays -- no object loop, no cast from object to float64 -- rather than
+    from the code under verification: such a path is UNDECIDED, never a violation"""
+    name, msg = type(e).__name__, str(e)
+    return ("UFunc" in name or "Cannot cast ufunc" in msg or "not supported for the input types" in msg or "did not contain a loop" in msg
+            or ("object" in msg and "dtype" in msg and isinstance(e, TypeError)))
+
+
 class Path:
     """one execution path of a method that branches on a symbolic scalar: decision vector + accumulated sign constraints"""
 
@@ -643,6 +651,18 @@ def shim_lu_solve(lu_and_piv, b, trans=0, overwrite_b=False, check_finite=True):
     return shim_solve_triangular(L, y, trans=1, lower=True)
 
 
+def shim_cho_solve(c_and_lower, b, overwrite_b=False, check_finite=True):
+    """contract of scipy.linalg.cho_solve((c, lower), b): solves A x = b with A = c c^T (lower: only the lower triangle of c is read) or A = c^T c (upper)"""
+    c, lower = c_and_lower
+    c = to_obj(c)
+    b = to_obj(np.asarray(b, dtype=object))
+    if lower:
+        y = shim_solve_triangular(c, b, lower=True)
+        return shim_solve_triangular(c, y, trans=1, lower=True)
+    y = shim_solve_triangular(c, b, trans=1, lower=False)
+    return shim_solve_triangular(c, y, lower=False)
+
+
 def shim_sqrtm(a):
     a = to_obj(a)
     n = a.shape[0]
@@ -675,12 +695,17 @@ class _NS:
     def __init__(self, **kw):
         self.__dict__.update(kw)
 
+    def __getattr__(self, name):
+        # a LAPACK-level routine without a contract shim: undecided, never an AttributeError of the program under verification
+        raise Undecided(f"no contract shim for the linear-algebra routine `{name}`")
+
 
 SHIM_TABLE = {
     "nla.cholesky": "A = L L^T with L lower triangular, positive diagonal (symbolic Cholesky; raises LinAlgError when a pivot is provably <= 0)",
     "nla.eigh": "returns a registered pair (w, Q) with Q orthogonal, Q diag(w) Q^T = A (order unspecified)",
     "sla.solve_triangular": "uses only the triangle selected by `lower`; trans=1 solves A^T x = b",
     "sla.lu_factor / lu_solve": "packed L\\\\U without pivoting; lu_solve(trans) solves A x = b or A^T x = b",
+    "sla.cho_solve": "cho_solve((c, lower), b) solves (c c^T) x = b for lower, (c^T c) x = b for upper factors (SciPy's convention, by two triangular solves)",
     "sla.sqrtm": "closed form for 1x1 / 2x2 symmetric positive definite input",
     "sla.block_diag": "block diagonal stacking",
 }
@@ -720,7 +745,8 @@ class _NPProxy:
 def shimmed(*modules):
     saved = []
     nla = _NS(cholesky=shim_cholesky, eigh=shim_eigh, LinAlgError=LinAlgError)
-    sla = _NS(solve_triangular=shim_solve_triangular, lu_factor=shim_lu_factor, lu_solve=shim_lu_solve, sqrtm=shim_sqrtm, block_diag=shim_block_diag)
+    sla = _NS(solve_triangular=shim_solve_triangular, lu_factor=shim_lu_factor, lu_solve=shim_lu_solve, sqrtm=shim_sqrtm, block_diag=shim_block_diag,
+              cho_solve=shim_cho_solve)
     for m in modules:
         for name, val in (("nla", nla), ("sla", sla), ("np", _NPProxy())):
             if hasattr(m, name):
